@@ -570,7 +570,7 @@ def units(tier):
         Unit('parse', 'enum', shards=4, gen=gen_parse, exhaustive=True),
         Unit('tables', 'bulk', shards=16, run=run_tables, exhaustive=True),
         Unit('small-streams', 'bulk', shards=16, run=run_small, exhaustive=True),
-        Unit('streams', 'hyp', shards=16, examples={'quick': 1300, 'thorough': 125000},
+        Unit('streams', 'hyp', shards=16, examples={'quick': 1000, 'thorough': 125000},
              strategy=strat_stream),
     ]
 
@@ -587,4 +587,18 @@ REGRESSIONS = [
         os.path.join(codepage_dir(), 'russup3.ucp')) else u'A', 'box': True},
 ]
 
-KILLS = []
+KILLS = [
+    "Converter._flush drops a lone buffered lead byte -> mark.concat.single, mark.cells.single, "
+    "bytes-roundtrip.single, char-roundtrip, stream.concat, stream.cells, stream.seqlen",
+    "Codepage.__init__ keeps the substitute glyph in _cp_to_unicode for printable ASCII (inverse "
+    "table built from the glyphs) -> char-roundtrip (864 '%')",
+    "_from_unicode ignores _inverse_substitutes -> bytes-roundtrip.subst, char-roundtrip, "
+    "char-unencodable",
+    "Converter._process does not reset the box-protection state on a preserved control byte -> "
+    "stream.preserve-segments (streams and small-streams units; needs 3 box bytes, CR, box byte, "
+    "trail byte)",
+    "_process_case3 flushes only one of the two buffered box bytes -> stream.concat, stream.cells",
+    "_process_case2 'no connection' flushes one byte instead of the pair -> stream.wellformed-split",
+    "Codepage.__init__ does not NFC-normalise table clusters -> bytes-roundtrip.pair, "
+    "char-roundtrip, char-unencodable",
+]
